@@ -1604,6 +1604,9 @@ func (p *CodeBuilder) IncDec(op token.Token, src ...ast.Node) *CodeBuilder {
 	}
 	pkg := p.pkg
 	arg := p.stk.Pop()
+	if _, ok := arg.Type.(*refType); !ok {
+		p.panicCodeErrorf(getPos(src), getEnd(src), "cannot assign to %v (not a variable reference)", arg.Type)
+	}
 	if t, ok := arg.Type.(*refType).typ.(*types.Named); ok {
 		op := lookupMethod(t, name)
 		if op != nil {
@@ -1673,6 +1676,9 @@ func callAssignOp(pkg *Package, tok token.Token, args []*internal.Elem, src []as
 	name := xgoPrefix + assignOps[tok]
 	if debugInstr {
 		log.Println("AssignOp", tok, name)
+	}
+	if _, ok := args[0].Type.(*refType); !ok {
+		pkg.cb.panicCodeErrorf(getPos(src), getEnd(src), "cannot assign to %v (not a variable reference)", args[0].Type)
 	}
 	if t, ok := args[0].Type.(*refType).typ.(*types.Named); ok {
 		op := lookupMethod(t, name)
